@@ -70,6 +70,9 @@ class Accessor(SgzReader, Mapping):
             # Acquiris Quodcumquae Rapis
             start, stop, step = subscript.indices(len(self))
             return [self.values_function(index) for index in range(start, stop, step)]
+        elif subscript < -len(self):
+            # Not every values_function refuses a negative ordinal itself
+            raise IndexError(self.range_error.format(subscript, -len(self), len(self) - 1))
         elif subscript < 0:
             return self.values_function(len(self)+subscript)
         else:
